@@ -333,85 +333,85 @@ const joinRuleText = "join: the channel Stop waits on is released only by the go
 
 // joinRule is C18.R1 (= C05.R1).
 func joinRule(c *core.Ctx, r *core.Report, f *runnerFacts) {
-		if f.stop == nil || f.joinField == nil {
-			r.Undecided("anchor:Stop", "-", "no method of raterun calls a stored CancelFunc and then receives from a channel field")
-			return
-		}
-		if f.loop == nil {
-			r.Undecided("anchor:loop", "-", "runner goroutine not found")
-			return
-		}
-		r.Exists("Stop", c.Pos(f.stop.Pos()), "%s cancels via field %s and blocks on field %s", core.FuncName(f.stop), f.cancelFld.Name(), f.joinField.Name())
-		releases := 0
-		for _, fn := range c.AllFuncs {
-			an.Instrs(fn, func(in ssa.Instruction) {
-				var ch ssa.Value
-				what := ""
-				switch x := in.(type) {
-				case ssa.CallInstruction:
-					if an.IsBuiltinCall(x, "close") {
-						ch, what = x.Common().Args[0], "close"
-					}
-				case *ssa.Send:
-					ch, what = x.Chan, "send"
+	if f.stop == nil || f.joinField == nil {
+		r.Undecided("anchor:Stop", "-", "no method of raterun calls a stored CancelFunc and then receives from a channel field")
+		return
+	}
+	if f.loop == nil {
+		r.Undecided("anchor:loop", "-", "runner goroutine not found")
+		return
+	}
+	r.Exists("Stop", c.Pos(f.stop.Pos()), "%s cancels via field %s and blocks on field %s", core.FuncName(f.stop), f.cancelFld.Name(), f.joinField.Name())
+	releases := 0
+	for _, fn := range c.AllFuncs {
+		an.Instrs(fn, func(in ssa.Instruction) {
+			var ch ssa.Value
+			what := ""
+			switch x := in.(type) {
+			case ssa.CallInstruction:
+				if an.IsBuiltinCall(x, "close") {
+					ch, what = x.Common().Args[0], "close"
 				}
-				if ch == nil {
-					return
-				}
-				fld, _ := an.TerminalField(ch)
-				if !an.SameField(fld, f.joinField) {
-					return
-				}
-				releases++
-				key := core.FuncName(fn) + "#" + what + "(" + f.joinField.Name() + ")"
-				pos := an.Pos(c, in)
-				if fn != f.loop {
-					r.Violation(key, pos, "%s of the join channel in %s, which is not the goroutine invoking the run function (%s): Stop can return while the function still runs", what, core.FuncName(fn), core.FuncName(f.loop))
-					return
-				}
-				if _, isDefer := in.(*ssa.Defer); isDefer {
-					ok := true
-					for _, s := range f.fnSites {
-						if !an.Dominates(in, s) {
-							ok = false
-						}
-					}
-					if an.InLoop(in) {
+			case *ssa.Send:
+				ch, what = x.Chan, "send"
+			}
+			if ch == nil {
+				return
+			}
+			fld, _ := an.TerminalField(ch)
+			if !an.SameField(fld, f.joinField) {
+				return
+			}
+			releases++
+			key := core.FuncName(fn) + "#" + what + "(" + f.joinField.Name() + ")"
+			pos := an.Pos(c, in)
+			if fn != f.loop {
+				r.Violation(key, pos, "%s of the join channel in %s, which is not the goroutine invoking the run function (%s): Stop can return while the function still runs", what, core.FuncName(fn), core.FuncName(f.loop))
+				return
+			}
+			if _, isDefer := in.(*ssa.Defer); isDefer {
+				ok := true
+				for _, s := range f.fnSites {
+					if !an.Dominates(in, s) {
 						ok = false
 					}
-					r.Check(ok, key, pos, "deferred at the top of the runner goroutine: released when the goroutine returns, after every invocation",
-						"deferred release does not dominate every invocation of the run function (or is registered in a loop)")
+				}
+				if an.InLoop(in) {
+					ok = false
+				}
+				r.Check(ok, key, pos, "deferred at the top of the runner goroutine: released when the goroutine returns, after every invocation",
+					"deferred release does not dominate every invocation of the run function (or is registered in a loop)")
+				return
+			}
+			for _, s := range f.fnSites {
+				if an.ReachableFrom(in, s) {
+					r.Violation(key, pos, "the run function can still be invoked (%s) after the join channel is released", an.Pos(c, s))
 					return
 				}
-				for _, s := range f.fnSites {
-					if an.ReachableFrom(in, s) {
-						r.Violation(key, pos, "the run function can still be invoked (%s) after the join channel is released", an.Pos(c, s))
-						return
-					}
-				}
-				r.OK(key, pos, "explicit release with no invocation reachable afterwards")
-			})
-		}
-		if !r.Floor("releases of the join channel", releases, 1) {
-			return
-		}
-		// every return of the goroutine is covered by a release
-		for _, ret := range an.Returns(f.loop) {
-			covered := false
-			an.Instrs(f.loop, func(in ssa.Instruction) {
-				ci, ok := in.(ssa.CallInstruction)
-				if !ok || !an.IsBuiltinCall(ci, "close") {
-					return
-				}
-				if fld, _ := an.TerminalField(ci.Common().Args[0]); an.SameField(fld, f.joinField) && an.Dominates(in, ret) {
-					covered = true
-				}
-			})
-			r.Check(covered, core.FuncName(f.loop)+"#return", an.Pos(c, ret), "return is preceded by the release on every path", "the goroutine can return without releasing the join channel: Stop would block forever")
-		}
-		// Stop really waits
-		pd := an.NewPostDom(f.stop)
-		entry := f.stop.Blocks[0].Instrs[0]
-		waits := entry == f.stopRecv || pd.PostDominates(f.stopRecv, entry)
-		r.Check(waits, core.FuncName(f.stop)+"#wait", an.Pos(c, f.stopRecv), "Stop receives from the join channel on every path", "Stop can return without waiting on the join channel")
+			}
+			r.OK(key, pos, "explicit release with no invocation reachable afterwards")
+		})
 	}
+	if !r.Floor("releases of the join channel", releases, 1) {
+		return
+	}
+	// every return of the goroutine is covered by a release
+	for _, ret := range an.Returns(f.loop) {
+		covered := false
+		an.Instrs(f.loop, func(in ssa.Instruction) {
+			ci, ok := in.(ssa.CallInstruction)
+			if !ok || !an.IsBuiltinCall(ci, "close") {
+				return
+			}
+			if fld, _ := an.TerminalField(ci.Common().Args[0]); an.SameField(fld, f.joinField) && an.Dominates(in, ret) {
+				covered = true
+			}
+		})
+		r.Check(covered, core.FuncName(f.loop)+"#return", an.Pos(c, ret), "return is preceded by the release on every path", "the goroutine can return without releasing the join channel: Stop would block forever")
+	}
+	// Stop really waits
+	pd := an.NewPostDom(f.stop)
+	entry := f.stop.Blocks[0].Instrs[0]
+	waits := entry == f.stopRecv || pd.PostDominates(f.stopRecv, entry)
+	r.Check(waits, core.FuncName(f.stop)+"#wait", an.Pos(c, f.stopRecv), "Stop receives from the join channel on every path", "Stop can return without waiting on the join channel")
+}
